@@ -227,6 +227,9 @@ type JobResult struct {
 	Witness     *Violation     `json:"witness,omitempty"`
 	WitnessObs  map[string]string `json:"witness_obs,omitempty"`
 	MoreWitness []WitnessOut      `json:"more_witness,omitempty"`
+	CrossChecked  int             `json:"cross_checked,omitempty"`
+	CrossUnknown  int             `json:"cross_unknown,omitempty"`
+	CrossDisagree []string        `json:"cross_disagree,omitempty"`
 	Reach       map[string]int `json:"reach,omitempty"`
 	KnownHit    map[string]int `json:"known_hit,omitempty"`
 	Asserts     map[string]int `json:"asserts,omitempty"`
@@ -278,6 +281,9 @@ func (in *Interp) runJob(job Job) (res *JobResult) {
 		in.solver = s
 	}
 	in.solver.Reset()
+	if in.cross != nil {
+		in.cross.Reset()
+	}
 	in.unwind = job.Unwind
 	in.maxPreempt = job.MaxPreempt
 	in.maxDeviate = job.MaxDeviate
@@ -295,6 +301,7 @@ func (in *Interp) runJob(job Job) (res *JobResult) {
 	res.Infeasible = run.infeasible
 	res.Unsupported, res.Unwind, res.PathCap = run.unsupported, run.unwind, run.pathCap
 	res.Violations = run.violations
+	res.CrossChecked, res.CrossUnknown, res.CrossDisagree = run.crossChecked, run.crossUnknown, run.crossDisagree
 	res.Reach, res.KnownHit, res.Asserts, res.Samples = run.reach, run.knownHit, run.assertNames, run.samples
 	if run.witness != nil {
 		res.Witness = &Violation{Harness: job.Harness, Args: job.Args, Kind: "witness", Model: run.witness, Choices: run.witnessChoices}
